@@ -197,6 +197,36 @@ func generate(e *vh.Env) []scenario {
 		out = append(out, scenario{class: "natural-timeout", maxc: -1, writeTO: 30 * time.Millisecond,
 			strategy: staticStrategy([][]label{{lStartL(0, trPipe, false)}, cat(sends(0, 2, r, &seq), []label{f}), after()[0]})})
 	}
+	// 6b. slow drain: many queued sends, local Close, a peer that reads one chunk every writeTimeout/20 - the whole
+	//     drain lasts two to three write timeouts while no single write waits anywhere near one.  Nothing is injected:
+	//     everything must be flushed, OnExit once, the count back.  net.Pipe (a Write blocks until it is read) and
+	//     loopback TCP (every payload byte is 8 KiB on the wire, small socket buffers: the kernel cannot absorb it).
+	if want("slow-drain") {
+		T := 800 * time.Millisecond
+		n := 1
+		if big {
+			n = 3
+		}
+		for rep := 0; rep < n; rep++ {
+			for tr := 0; tr < 2; tr++ {
+				k := 50 + r.Intn(15)
+				var ss []label
+				for j := 0; j < k; j++ {
+					p := payload(r, &seq)
+					if tr == trTcp && len(p) > 2 {
+						p = p[:2]
+					}
+					ss = append(ss, lSend(0, p))
+				}
+				sc := scenario{class: "slow-drain/" + strings.ToLower(trNames[tr]), maxc: -1, writeTO: T, pace: T / 20, chunk: 2, amp: 1,
+					strategy: staticStrategy([][]label{{lStartL(0, tr, true)}, cat(ss, []label{lb(aLocalClose, 0)}), after()[0]})}
+				if tr == trTcp {
+					sc.amp = 8 << 10
+				}
+				out = append(out, sc)
+			}
+		}
+	}
 	// 7. the accept loop with a maximum
 	nAcc := e.Scale(36, 400)
 	for n := 0; n < nAcc && want("accept"); n++ {
